@@ -1,5 +1,6 @@
 use crate::fw::*;
 pub mod c01;
+pub mod c02;
 pub mod c09;
 pub mod c10;
 pub mod c11;
@@ -8,6 +9,7 @@ pub mod c17;
 pub fn run(prop: &str, tier: Tier) -> Report {
     match prop {
         "C01" => c01::run(tier),
+        "C02" => c02::run(tier),
         "C09" => c09::run(tier),
         "C10" => c10::run(tier),
         "C11" => c11::run(tier),
@@ -21,6 +23,7 @@ pub fn run(prop: &str, tier: Tier) -> Report {
 pub fn replay(prop: &str, _tier: Tier, case: &serde_json::Value) -> Vec<Violation> {
     match prop {
         "C01" => c01::replay(case),
+        "C02" => c02::replay(case),
         "C09" => c09::replay(case),
         "C10" => c10::replay(case),
         "C11" => c11::replay(case),
